@@ -314,3 +314,113 @@ func uniq(s []string) []string {
 	}
 	return o
 }
+
+func leanStr(s string) string {
+	var sb strings.Builder
+	sb.WriteByte('"')
+	for _, r := range s {
+		switch {
+		case r == '"':
+			sb.WriteString("\\\"")
+		case r == '\\':
+			sb.WriteString("\\\\")
+		case r < 32:
+			fmt.Fprintf(&sb, "\\x%02x", r)
+		default:
+			sb.WriteRune(r)
+		}
+	}
+	sb.WriteByte('"')
+	return sb.String()
+}
+
+func (t *sTy) lean(sb *strings.Builder) {
+	switch t.Kind {
+	case "str":
+		sb.WriteString(".str")
+	case "int":
+		sb.WriteString(".int")
+	case "float":
+		sb.WriteString(".float")
+	case "bool":
+		sb.WriteString(".bool")
+	case "time":
+		sb.WriteString(".time")
+	case "any":
+		sb.WriteString(".any")
+	case "enum":
+		sb.WriteString("(.enum [")
+		for i, v := range t.Enum {
+			if i > 0 {
+				sb.WriteString(", ")
+			}
+			sb.WriteString(leanStr(v))
+		}
+		sb.WriteString("])")
+	case "ptr":
+		sb.WriteString("(.ptr ")
+		t.Elem.lean(sb)
+		sb.WriteString(")")
+	case "slice":
+		sb.WriteString("(.slice ")
+		t.Elem.lean(sb)
+		sb.WriteString(")")
+	case "struct":
+		sb.WriteString("(.struct ")
+		for _, f := range t.Fields {
+			fmt.Fprintf(sb, "(.cons %s %v [", leanStr(f.Key), f.Omit)
+			for i, tg := range f.Tags {
+				if i > 0 {
+					sb.WriteString(", ")
+				}
+				n := atoiOr(tg[1], 0)
+				switch tg[0] {
+				case "required", "omitempty", "dive", "unique", "svRequired":
+					sb.WriteString("." + tg[0])
+				case "uri", "url":
+					sb.WriteString(".uri")
+				case "max", "min", "gte", "gt", "lte", "lt":
+					fmt.Fprintf(sb, ".%s (%d)", tg[0], n)
+				case "svUnless":
+					p := strings.SplitN(tg[1], ":", 2)
+					fmt.Fprintf(sb, ".svUnless %s %s", leanStr(p[0]), leanStr(p[len(p)-1]))
+				default:
+					fmt.Fprintf(sb, ".enumTag %s", leanStr(tg[0]))
+				}
+			}
+			sb.WriteString("] ")
+			f.Ty.lean(sb)
+			sb.WriteString(" ")
+		}
+		sb.WriteString(".nil")
+		for range t.Fields {
+			sb.WriteString(")")
+		}
+		sb.WriteString(")")
+	default:
+		sb.WriteString(".any")
+	}
+}
+
+func init() {
+	monitors["schemas_lean"] = func(seed int64, tier string) interface{} {
+		var sb strings.Builder
+		sb.WriteString("import OcppModel.Schema\n\n/-! GENERATED by harness `monitor schemas_lean` from /repo (reflection over the linked payload types). Do not edit. -/\nnamespace Gen.Schemas\nopen Ocpp.Sch\n\n")
+		es := allSchemas()
+		for i, e := range es {
+			fmt.Fprintf(&sb, "def s%d : Ty := ", i)
+			e.Ty.lean(&sb)
+			sb.WriteString("\n")
+		}
+		sb.WriteString("\ndef all : List (String × Ty) := [\n")
+		for i, e := range es {
+			fmt.Fprintf(&sb, "  (%s, s%d)", leanStr(e.Ver+"/"+e.Feature+"/"+e.Dir), i)
+			if i+1 < len(es) {
+				sb.WriteString(",")
+			}
+			sb.WriteString("\n")
+		}
+		sb.WriteString("]\n\nend Gen.Schemas\n")
+		return map[string]string{"lean": sb.String()}
+	}
+}
